@@ -45,6 +45,7 @@ type whStep struct {
 
 type whCase struct {
 	Steps []whStep `json:"steps"`
+	Sig   string   `json:"sig,omitempty"`
 	final [2]string
 	sem   []string
 }
@@ -83,6 +84,14 @@ func whRun(cs *whCase, r *gen.Rand) {
 				ids = append(ids, s.ID)
 				s.Entries, _ = w.Entries(s.Repo, s.ID)
 			}
+		case "bigbundle": // a committed bundle with more than one file list, written directly
+			sec += 10
+			s.ID = kid(r, sec)
+			for j := 0; j < s.N; j++ {
+				s.Entries = append(s.Entries, world.Entry{Name: fmt.Sprintf("big/f%05d", j), Hash: strings.Repeat(fmt.Sprintf("%02x", j%256), 64), Size: uint64(j)})
+			}
+			w.PutBundle(s.Repo, s.ID, s.Entries, 1000, true)
+			ids = append(ids, s.ID)
 		case "leftover":
 			sec += 10
 			if s.Older {
@@ -179,6 +188,8 @@ func whCoq(cs *whCase) string {
 			op, obs = "OCreateRepo "+S(s.Repo), res
 		case "upload":
 			op, obs = fmt.Sprintf("OUpload %s %s %s", S(s.Repo), S(s.ID), entriesCoq(s.Entries)), res
+		case "bigbundle":
+			op, obs = fmt.Sprintf("OUpload %s %s %s", S(s.Repo), S(s.ID), entriesCoq(s.Entries)), "WRes true"
 		case "leftover":
 			op, obs = fmt.Sprintf("OLeftover %s %s %s", S(s.Repo), S(s.ID), entriesCoq(s.Entries)), "WRes true"
 		case "setlabel":
@@ -273,7 +284,7 @@ func whPrologue(r *gen.Rand, maxBundles int) ([]whStep, []string, map[string][]i
 	return steps, repos, byRepo
 }
 
-func whGen(prop string, r *gen.Rand) *whCase {
+func whGen(prop string, r *gen.Rand, first bool) *whCase {
 	cs := &whCase{}
 	switch prop {
 	case "C08":
@@ -309,6 +320,13 @@ func whGen(prop string, r *gen.Rand) *whCase {
 	case "C09":
 		steps, repos, _ := whPrologue(r, 3)
 		target := repos[r.Intn(len(repos))]
+		if first { // delete-files on a bundle with several file lists (every run)
+			steps = append(steps, whStep{Op: "bigbundle", Repo: target, N: []int{1001, 2000, 1500}[r.Intn(3)], Bundle: -1})
+			steps = append(steps, whStep{Op: "delentries", Repo: target, Paths: []string{"big/f00003", "big/f01000", "common.txt"}[:r.Range(1, 3)], Bundle: -1, Judge: true})
+			cs.Steps = steps
+			cs.Sig = "delete-entries-multi-index"
+			return cs
+		}
 		switch r.Intn(3) {
 		case 0:
 			steps = append(steps, whStep{Op: "delrepo", Repo: target, Bundle: -1, Judge: true})
@@ -392,7 +410,11 @@ func whProp(prop string) propFn {
 					key = key[len(key)-400:]
 				}
 			}
-			c.Emit(cs, whCoq(cs), key, fmt.Sprintf("steps=%d", len(cs.Steps)/10*10), "world")
+			sig := "world"
+			if cs.Sig != "" {
+				sig = cs.Sig
+			}
+			c.Emit(cs, whCoq(cs), key, fmt.Sprintf("steps=%d %s", len(cs.Steps)/10*10, cs.Sig), sig)
 		}
 		r := c.Rng.Fork()
 		if len(c.Replay) > 0 {
@@ -411,7 +433,7 @@ func whProp(prop string) propFn {
 			n = 500
 		}
 		for i := 0; i < n; i++ {
-			cs := whGen(prop, r)
+			cs := whGen(prop, r, i == 0)
 			whRun(cs, r)
 			emit(cs)
 		}
